@@ -4,6 +4,8 @@
 usage: verify_seed.py <candidate_dir> <seed_id> <property>   -> writes /verif/seeded/<seed_id>/ when confirmed"""
 import json, os, shutil, subprocess, sys, time
 cand, sid, prop = sys.argv[1:4]
+HARMLESS = "--harmless" in sys.argv   # a property-preserving rewrite: the demo must pass before AND after
+KIND = "harmless" if HARMLESS else "seeded"
 HERE = os.path.dirname(os.path.dirname(os.path.abspath(__file__)))
 wt = "/tmp/vs-" + sid
 subprocess.run(["git", "-C", "/repo", "worktree", "remove", "--force", wt], capture_output=True)
@@ -33,16 +35,16 @@ try:
         res["suite_ok"] = t.returncode == 0
 finally:
     subprocess.run(["git", "-C", "/repo", "worktree", "remove", "--force", wt], capture_output=True)
-ok = res.get("applies") and res["demo_before"][0] == 0 and res.get("demo_after", (0,))[0] != 0 and res.get("suite_ok")
+ok = res.get("applies") and res["demo_before"][0] == 0 and ((res.get("demo_after", (1,))[0] == 0) if HARMLESS else (res.get("demo_after", (0,))[0] != 0)) and res.get("suite_ok")
 res["confirmed"] = bool(ok)
 print(sid, json.dumps(res))
 if ok:
-    d = os.path.join(HERE, "seeded", sid); os.makedirs(d, exist_ok=True)
+    d = os.path.join(HERE, KIND, sid); os.makedirs(d, exist_ok=True)
     for f in ("patch.diff", "demo.py", "notes.md"):
         if os.path.exists(os.path.join(cand, f)): shutil.copy(os.path.join(cand, f), os.path.join(d, f))
     open(os.path.join(d, "demo.py"), "w").write(src2.replace(wt, "/repo"))
     notes = open(os.path.join(cand, "notes.md")).read() if os.path.exists(os.path.join(cand, "notes.md")) else ""
-    json.dump(dict(id=sid, property=prop, breaks=prop, needs_to_manifest=notes[:1500], source="independent sub-agent given only the property text and a scratch worktree",
+    json.dump(dict(id=sid, property=prop, breaks=(None if HARMLESS else prop), kind=("property-preserving rewrite" if HARMLESS else "property-breaking change"), needs_to_manifest=notes[:1500], source="independent sub-agent given only the property text and a scratch worktree",
                    verified=dict(repo_head=subprocess.check_output(["git", "-C", "/repo", "log", "-1", "--format=%h"]).decode().strip(),
                                  demo_without_patch=res["demo_before"], demo_with_patch=res["demo_after"], suite=res["suite"]),
                    ran="tools/verify_seed.py: scratch worktree of /repo HEAD; demo.py before/after `git apply patch.diff`; tools/baseline_check.py (full pinned suite vs stable_pass)"),
